@@ -455,7 +455,8 @@ class HistImpl:
         for t in out:
             if not (isinstance(t, tuple) and len(t) == 3):
                 return "other:entry-shape"
-            words.append(f"{t[0]}/{t[1]}/" + Impl.canon(t[2])[3:].replace(" ", "/"))
+            cw = Impl.canon(t[2]).split(" ", 2)          # ok <kind> [<value>]
+            words.append(f"{t[0]}/{t[1]}/{cw[1]}/" + (cw[2] if len(cw) > 2 else "-"))
         return "|".join(words)
 
 
@@ -516,7 +517,7 @@ def hist_oracle(cur, iids, payload, impl):
         if a != "1" or i != str(iids[k]):
             return ("shape:ids", f"entry for characteristic #{k} (iid {iids[k]}) came back as aid/iid {a}/{i}: results must follow payload order")
         fmt, mn, mx, st = cur[k]
-        orc = oracle(fmt, mn, mx, st, v, f"ok {kind} {val}")
+        orc = oracle(fmt, mn, mx, st, v, f"ok {kind} {val}" if val != "-" else f"ok {kind}")
         if orc is not None:
             return (orc[0], f"characteristic #{k}: " + orc[1])
     return None
@@ -623,11 +624,13 @@ def track(ops):
     return cur
 
 
-def last_prepare_fails(ops):
+def last_prepare_fails(ops, slug=None):
+    """does the final Prepare of this history (run on fresh objects) violate the property (with this slug, if given)?"""
     if not ops or ops[-1][0] != "P":
         return False
     iids, res = run_history(ops)
-    return hist_oracle(track(ops), iids, ops[-1][1], res[-1]) is not None
+    orc = hist_oracle(track(ops), iids, ops[-1][1], res[-1])
+    return orc is not None and (slug is None or orc[0] == slug)
 
 
 def hist_stream(ctx, drv, cov, add, histories):
@@ -664,7 +667,7 @@ def hist_stream(ctx, drv, cov, add, histories):
                 # does it need the history?  the same payload on fresh objects carrying only the metadata in force
                 fresh = [("D", k) + cur[k] for k in sorted({k for k, _ in payload})] + [o]
                 hist_dep = not last_prepare_fails(fresh)
-                small = shrink_list(ops[:j], lambda c: last_prepare_fails(list(c) + [o]), budget=120) + [o] if hist_dep else fresh
+                small = shrink_list(ops[:j], lambda c: last_prepare_fails(list(c) + [o], orc[0]), budget=120) + [o] if hist_dep else fresh
                 key = "hist:" + ("history-dependent:" if hist_dep else "") + orc[0]
                 add(key, ("after a history, " if hist_dep else "") + orc[1] + f" | shrunk history: {[repr(x) for x in small]}"[:700], True,
                     stream="hist", history=[repr(x) for x in small], history_json=hist_json(small), impl=got, model=m,
